@@ -413,13 +413,18 @@ func verifC14_ClientSubscriptions() {
 	q1, q2 := byte(verifInt("qos.f1", 0, 1)), byte(verifInt("qos.f2", 0, 1))
 	connect := func(clean bool) *vConn { return vConnect("c", clean, "") }
 	c1 := connect(false)
-	c1.script = append(c1.script, vSubscribePacket(1, []string{"a/1"}, []byte{q1}))
+	// the two filters are subscribed in either order (the session keeps them in a map)
+	first, second := vSubscribePacket(1, []string{"a/1"}, []byte{q1}), vSubscribePacket(3, []string{"b/+"}, []byte{q2})
+	if verifBool("secondFilterSubscribedFirst") {
+		first, second = second, first
+	}
+	c1.script = append(c1.script, first)
 	malformed := verifBool("malformedSubscribeInBetween")
 	if malformed {
 		c1.script = append(c1.script, vSubscribePacket(2, []string{"zz/#/x"}, []byte{1}))
 		verifCover("malformed-subscribe")
 	}
-	c1.script = append(c1.script, vSubscribePacket(3, []string{"b/+"}, []byte{q2}))
+	c1.script = append(c1.script, second)
 	go b.handleConn(c1)
 	verifQuiesce()
 	verifAssert(c1.connack == int(packets.Accepted), "connected")
@@ -431,7 +436,7 @@ func verifC14_ClientSubscriptions() {
 		// the connection may be kept or ended after the malformed SUBSCRIBE; what was
 		// subscribed before it is routed as long as the client is connected
 		if cl := b.clients["c"]; cl != nil && !cl.disconnected() {
-			verifAssert(ok1 && g1 == q1, "routed-with-the-qos-of-its-own-subscription")
+			verifAssert((ok1 && g1 == q1) || (ok2 && g2 == q2), "routed-with-the-qos-of-its-own-subscription")
 		}
 	}
 	if s := b.sessMgr.get("c"); s != nil {
